@@ -1,4 +1,5 @@
 import Pi2.Props.C08b
 import Pi2.Props.C03b
+import Pi2.Props.C03d
 /-! # C03 — gate module: the phase / journal theorems (namespace `C03` in `Props/C02.lean` and `Props/C08b.lean`) together with the slot-budget
 theorems of `Props/C03b.lean` (nothing is stated here). -/
